@@ -148,7 +148,16 @@ func Decl(r *vk.RNG, o DeclOpts) *model.Decl {
 	if model.Mode(mode) == model.ModeTx && len(d.Block) == 0 {
 		addField(FieldByName(vk.Pick(r, []string{"tx_hash", "tx_value", "tx_signer", "tx_status"})))
 	}
-	if o.HashPlan {
+	// a trace declaration without receipt- or log-level fields needs block-level required fields (tx_idx, block_num)
+	// that neither trace_block nor anything else it asks for supplies, so its plan carries block hashes by itself:
+	// force the extra field only half of the time there
+	natural := model.Mode(mode) == model.ModeTrace
+	for _, b := range d.Block {
+		if cl := FieldByName(b.Name).Class; cl == "receipt" || cl == "log" {
+			natural = false
+		}
+	}
+	if o.HashPlan && (!natural || r.Bool()) {
 		addField(FieldByName(vk.Pick(r, []string{"block_time", "tx_value", "tx_input", "tx_nonce"})))
 	}
 	if model.Mode(mode) == model.ModeLog {
